@@ -14,7 +14,9 @@ import (
 	"verif/harness/internal/c05"
 	"verif/harness/internal/c09"
 	"verif/harness/internal/c10"
+	"verif/harness/internal/c11"
 	"verif/harness/internal/c12"
+	"verif/harness/internal/c13"
 	"verif/harness/internal/c19"
 	"verif/harness/internal/fw"
 	"verif/harness/internal/victim"
@@ -98,6 +100,12 @@ func main() {
 	case "C10":
 		res.Rule = "hostile frames from the property's descriptor grid (control methods x params shapes x element values x id types, responses never requested, calls of every error class, undecodable/binary/empty buffers) sent singly and in random sequences to a real server and, from a fake server, to a real client, each in a child process; body sizes L-1..L+2 for 11 limits; distinct = distinct frame sequence; every case is non-trivial (hostile input reaches the executor)"
 		err = c10.Run(d, res, *seed, thorough, corpus)
+	case "C13":
+		res.Rule = "panic payloads {string, error, nil-map write, nil dereference, struct, index out of range} x call kinds {unary, notification, channel-returning} x {ws, http} x {alone, with 3 concurrent callers and a stream}; the server runs in a child process; every case is non-trivial (a handler panics)"
+		err = c13.Run(d, res, *seed, thorough)
+	case "C11":
+		res.Rule = "error family {plain, pointer-only, marshalable, codec} x value/pointer dynamic forms x failing (un)marshal/codec steps x random registration tables per side (none, same, independent, shared codes) x messages (empty, escapes, control, multi-byte) x shapes {error, (value,error)} x transports {custom, http, ws}; distinct = (tables, spec, shape); non-trivial = the handler returned a non-nil error"
+		err = c11.Run(d, res, *seed, n(3000, 40000), corpus)
 	case "C19":
 		res.Rule = "exhaustive: 10 default sets x 10 caller sets x {attached, not} x 3 required permissions x 2 method shapes through the real PermissionedProxy, and 14 Authorization header forms x 6 token query forms through the real auth.Handler; every case is distinct and non-trivial (a permission decision is taken)"
 		err = c19.Run(d, res)
